@@ -112,6 +112,9 @@ func Gen(t *rapid.T) *Case {
 	c := &Case{Types: genTypes(t), SharedOpts: rapid.IntRange(0, 3).Draw(t, "sharedOpts") == 0, RevOpts: rapid.Bool().Draw(t, "revOpts")}
 	if rapid.Bool().Draw(t, "hasAmbient") {
 		c.Ambient = rapid.IntRange(0, busmodel.AmbAll).Draw(t, "ambient")
+		if rapid.IntRange(0, 3).Draw(t, "nilOpts") == 0 {
+			c.Ambient |= busmodel.AmbNils
+		}
 	}
 	nt := len(c.Types)
 	g := &genState{subs: map[int][][2]int{}}
